@@ -209,7 +209,16 @@ class Interp:
         if isinstance(e, ast.Tuple):
             return Tup([self.ev(x, env) for x in e.elts])
         if isinstance(e, ast.List):
-            return Lst([('elem', self.ev(x, env)) for x in e.elts])
+            items = []
+            for x in e.elts:
+                if isinstance(x, ast.Starred):
+                    v = self.ev(x.value, env)
+                    if not isinstance(v, Lst):
+                        raise AnalysisError('R-REPEAT-COUNT: unpacking of something that is not a list expression: %s' % norm(x)[:100])
+                    items += v.items
+                else:
+                    items.append(('elem', self.ev(x, env)))
+            return Lst(items)
         if isinstance(e, ast.ListComp) or isinstance(e, ast.GeneratorExp):
             if len(e.generators) != 1 or e.generators[0].ifs or not isinstance(e.generators[0].target, ast.Name):
                 raise AnalysisError('R-REPEAT-COUNT: comprehension shape not understood: %s' % norm(e)[:120])
@@ -234,6 +243,9 @@ class Interp:
                     return Int(l.p - r.p)
                 if isinstance(e.op, ast.Mult):
                     return Int(l.p * r.p)
+                if isinstance(e.op, (ast.FloorDiv, ast.Mod)):
+                    q, rem = self.quot_rem(l.p, r.p)
+                    return Int(q if isinstance(e.op, ast.FloorDiv) else rem)
                 return Sym(norm(e))
             if isinstance(e.op, ast.Add) and isinstance(l, Lst) and isinstance(r, Lst):
                 return Lst(l.items + r.items)
@@ -338,13 +350,23 @@ class Interp:
         if isinstance(fn, ast.Name) and fn.id == 'divmod' and len(e.args) == 2:
             a, b = self.ev(e.args[0], env), self.ev(e.args[1], env)
             if isinstance(a, Int) and isinstance(b, Int):
-                k = next(self.fresh)
-                q, r = Poly.var('q#%d' % k), Poly.var('r#%d' % k)
-                self.relations.append((a.p, q * b.p + r, q, b.p))
+                q, r = self.quot_rem(a.p, b.p)
                 return Tup([Int(q), Int(r)])
         return Sym(norm(e))
 
     relations: list = []
+
+    def quot_rem(self, a: Poly, b: Poly) -> Tuple[Poly, Poly]:
+        """symbols for a // b and a % b, with the relation a == (a // b) * b + a % b"""
+        key = (str(a), str(b))
+        if key not in self.qr:
+            k = next(self.fresh)
+            q, r = Poly.var('q#%d' % k), Poly.var('r#%d' % k)
+            self.qr[key] = (q, r)
+            self.relations.append((a, q * b + r, q, b))
+        return self.qr[key]
+
+    qr: dict = {}
 
     def as_cnt(self, v, node) -> Cnt:
         if isinstance(v, Cnt):
@@ -459,6 +481,9 @@ class Interp:
             if isinstance(it, Facts):
                 env = self.fold_loop(st, it, dict(env))
                 self.run(rest, env, facts, out)
+            elif self.appending_loop(st, env) is not None:
+                env = self.appending_loop(st, env)
+                self.run(rest, env, facts, out)
             else:
                 env2 = dict(env)
                 self.bind_loopvar(st, env2)
@@ -466,15 +491,57 @@ class Interp:
                 self.run(list(st.body), env2, facts + [(st, 'in-loop')], inner)
                 out.extend(x for x in inner if x[0] != 'fall')
                 self.run(rest, env, facts, out)
-        elif isinstance(st, (ast.Expr, ast.Pass)):
+        elif isinstance(st, ast.Pass):
+            self.run(rest, env, facts, out)
+        elif isinstance(st, ast.Expr):
+            c = st.value
+            if isinstance(c, ast.Call) and isinstance(c.func, ast.Attribute) and isinstance(c.func.value, ast.Name) \
+                    and isinstance(env.get(c.func.value.id), Lst):
+                # a list under construction: X.append(e) / X.extend(L) / X.insert(0, e) are understood, nothing else is
+                name = c.func.value.id
+                env = dict(env)
+                if c.func.attr == 'append' and len(c.args) == 1:
+                    env[name] = Lst(env[name].items + [('elem', self.ev(c.args[0], env))])
+                elif c.func.attr == 'extend' and len(c.args) == 1 and isinstance(self.ev(c.args[0], env), Lst):
+                    env[name] = Lst(env[name].items + self.ev(c.args[0], env).items)
+                else:
+                    raise AnalysisError('R-REPEAT-COUNT: %s: list operation not understood: %s' % (self.f.qual, norm(c)[:100]))
             self.run(rest, env, facts, out)
         elif isinstance(st, ast.AugAssign):
             env = dict(env)
             if isinstance(st.target, ast.Name):
-                env[st.target.id] = Sym('?')
+                cur = env.get(st.target.id)
+                v = self.ev(st.value, env)
+                if isinstance(cur, Lst) and isinstance(st.op, ast.Add) and isinstance(v, Lst):
+                    env[st.target.id] = Lst(cur.items + v.items)
+                elif isinstance(cur, Int) and isinstance(v, Int) and isinstance(st.op, (ast.Add, ast.Sub, ast.Mult)):
+                    env[st.target.id] = Int(cur.p + v.p if isinstance(st.op, ast.Add) else cur.p - v.p if isinstance(st.op, ast.Sub) else cur.p * v.p)
+                elif isinstance(cur, (Lst, Cnt, Int)):
+                    raise AnalysisError('R-REPEAT-COUNT: %s: update not understood: %s' % (self.f.qual, norm(st)[:100]))
+                else:
+                    env[st.target.id] = Sym('?')
             self.run(rest, env, facts, out)
         else:
             raise AnalysisError('R-REPEAT-COUNT: statement kind %s not understood in %s' % (type(st).__name__, self.f.qual))
+
+    def appending_loop(self, st: ast.For, env: dict) -> Optional[dict]:
+        """`for v in range(..): X.append(E)` with X a list under construction: an indexed family"""
+        if not (isinstance(st.target, ast.Name) and len(st.body) == 1 and isinstance(st.body[0], ast.Expr)):
+            return None
+        c = st.body[0].value
+        if not (isinstance(c, ast.Call) and isinstance(c.func, ast.Attribute) and c.func.attr == 'append' and len(c.args) == 1
+                and isinstance(c.func.value, ast.Name) and isinstance(env.get(c.func.value.id), Lst)):
+            return None
+        if not (isinstance(st.iter, ast.Call) and isinstance(st.iter.func, ast.Name) and st.iter.func.id == 'range'):
+            return None
+        lo, hi = self.range_bounds(st.iter, env)
+        var = '%s#%d' % (st.target.id, next(self.fresh))
+        env2 = dict(env)
+        env2[st.target.id] = Int(Poly.var(var))
+        v = self.ev(c.args[0], env2)
+        out = dict(env)
+        out[c.func.value.id] = Lst(env[c.func.value.id].items + [('fam', var, lo, hi, v)])
+        return out
 
     def bind_loopvar(self, st: ast.For, env: dict):
         if isinstance(st.target, ast.Name):
@@ -602,6 +669,7 @@ class Interp:
 def _new_interp(repo, f, summaries) -> Interp:
     it = Interp(repo, f, summaries)
     it.relations = []
+    it.qr = {}
     it.pending_last = []
     it.init_folds = []
     return it
